@@ -709,6 +709,98 @@ pub proof fn lemma_or_lists_post(s: &Schedule, segment: Segment, p: VehicleIdx, 
             ==> s.or_lists_after(segment, p, rcv, tours1, dummies1, grouped1, ids2),
 {
 }
+/// putting a new id into a duplicate-free list: membership, duplicate-freeness
+pub proof fn lemma_insert_listing(a: Seq<VehicleIdx>, pos: int, x: VehicleIdx)
+    requires 0 <= pos <= a.len(), a.no_duplicates(), !a.contains(x),
+    ensures
+        a.insert(pos, x).no_duplicates(),
+        forall|v: VehicleIdx| #[trigger] a.insert(pos, x).contains(v) <==> (a.contains(v) || v == x),
+{
+    let b = a.insert(pos, x);
+    assert forall|i: int, j: int| 0 <= i < b.len() && 0 <= j < b.len() && i != j implies b[i] != b[j] by {
+        let ia = if i < pos { i } else { i - 1 };
+        let ja = if j < pos { j } else { j - 1 };
+        if i != pos && j != pos { assert(b[i] == a[ia] && b[j] == a[ja]); }
+        else if i == pos { assert(b[j] == a[ja]); assert(a.contains(a[ja])); }
+        else { assert(b[i] == a[ia]); assert(a.contains(a[ia])); }
+    }
+    assert forall|v: VehicleIdx| #[trigger] b.contains(v) <==> (a.contains(v) || v == x) by {
+        if b.contains(v) {
+            let i = choose|i: int| 0 <= i < b.len() && b[i] == v;
+            if i < pos { assert(a[i] == v); } else if i > pos { assert(a[i - 1] == v); }
+        }
+        if a.contains(v) {
+            let i = choose|i: int| 0 <= i < a.len() && a[i] == v;
+            if i < pos { assert(b[i] == v); } else { assert(b[i + 1] == v); }
+        }
+        if v == x { assert(b[pos] == x); }
+    }
+}
+/// C10: "vehicle and dummy listings are sorted and match the stored tours" still holds after the new dummy id entered the
+/// dummy list (dummies1 / ids1: after update_tours; dummies2 / ids2: after add_dummy_tour, if it runs)
+pub proof fn lemma_or_listings_post(s: &Schedule, segment: Segment, p: VehicleIdx, rcv: VehicleIdx, stp: Option<Tour>, ntr: Tour, ndt: Option<Tour>,
+        vehicles1: VehicleMap, dummies1: TourMap, grouped1: Grouped, ids1: Seq<VehicleIdx>, dummies2: TourMap, ids2: Seq<VehicleIdx>)
+    requires s.or_pre(segment, p, rcv),
+    ensures
+        listings_ok(vehicles1, dummies1, grouped1, ids1) && dummies1 == s.dummies_after(s.dummy_tours@, Some(p), stp, rcv, ntr)
+            && (ndt is Some ==> s.vehicle_counter <= 0xffff)
+            && (match ndt {
+                    Some(t) => dummies2 == dummies1.insert(s.next_dummy_id(), t) && ids_gain(ids1, ids2, s.next_dummy_id()) && sorted_cmp(ids2),
+                    None => dummies2 == dummies1 && ids2 == ids1,
+                })
+            ==> listings_ok(vehicles1, dummies2, grouped1, ids2),
+{
+    let id = s.next_dummy_id();
+    if listings_ok(vehicles1, dummies1, grouped1, ids1) && dummies1 == s.dummies_after(s.dummy_tours@, Some(p), stp, rcv, ntr)
+        && ndt is Some && s.vehicle_counter <= 0xffff
+        && dummies2 == dummies1.insert(id, ndt.unwrap()) && ids_gain(ids1, ids2, id) && sorted_cmp(ids2) {
+        lemma_or_fresh_id(s, segment, p, rcv);
+        assert(!dummies1.contains_key(id));
+        assert(ids1.contains(id) <==> dummies1.contains_key(id));
+        let pos = choose|pos: int| 0 <= pos <= ids1.len() && ids2 == #[trigger] ids1.insert(pos, id);
+        lemma_insert_listing(ids1, pos, id);
+        assert forall|v: VehicleIdx| #[trigger] ids2.contains(v) <==> dummies2.contains_key(v) by {
+            assert(ids1.contains(v) <==> dummies1.contains_key(v));
+        }
+    }
+}
+/// C10 (ids): the ids stay valid: the vehicles still have tours and ids of the `Vehicle` kind, every dummy id is below the
+/// counter (the next id is fresh again), the dummy list is sorted
+pub proof fn lemma_or_ids_post(s: &Schedule, segment: Segment, p: VehicleIdx, rcv: VehicleIdx, stp: Option<Tour>, ntr: Tour, ndt: Option<Tour>,
+        vehicles1: VehicleMap, tours1: TourMap, dummies2: TourMap, ids2: Seq<VehicleIdx>, counter1: usize)
+    requires s.or_pre(segment, p, rcv),
+    ensures
+        ({
+            let d1 = s.dummies_after(s.dummy_tours@, Some(p), stp, rcv, ntr);
+            &&& vehicles1 == s.vehicles_after(s.vehicles@, Some(p), stp)
+            &&& tours1 == s.tours_after(s.tours@, Some(p), stp, rcv, ntr)
+            &&& dummies2 == (match ndt { Some(t) => d1.insert(s.next_dummy_id(), t), None => d1 })
+            &&& ndt is Some ==> s.vehicle_counter <= 0xffff && counter1 == s.vehicle_counter + 1
+            &&& ndt is None ==> counter1 == s.vehicle_counter
+            &&& sorted_cmp(ids2)
+        }) ==> ids_valid(vehicles1, tours1, dummies2, ids2, counter1),
+{
+    lemma_or_setup(s, segment, p, rcv);
+    let d1 = s.dummies_after(s.dummy_tours@, Some(p), stp, rcv, ntr);
+    if vehicles1 == s.vehicles_after(s.vehicles@, Some(p), stp) && tours1 == s.tours_after(s.tours@, Some(p), stp, rcv, ntr)
+        && dummies2 == (match ndt { Some(t) => d1.insert(s.next_dummy_id(), t), None => d1 })
+        && (ndt is Some ==> s.vehicle_counter <= 0xffff && counter1 == s.vehicle_counter + 1)
+        && (ndt is None ==> counter1 == s.vehicle_counter) && sorted_cmp(ids2) {
+        assert forall|v: VehicleIdx| #[trigger] vehicles1.contains_key(v) implies v is Vehicle && vehicles1[v].idx == v by {
+            assert(s.vehicles@.contains_key(v));
+        }
+        assert forall|v: VehicleIdx| #[trigger] vehicles1.contains_key(v) <==> tours1.contains_key(v) by {
+            assert(s.vehicles@.contains_key(v) <==> s.tours@.contains_key(v));
+        }
+        assert forall|d: VehicleIdx| #[trigger] dummies2.contains_key(d) implies d is Dummy && (d->Dummy_0 as int) < counter1 by {
+            if d == s.next_dummy_id() && ndt is Some {
+            } else {
+                assert(d1.contains_key(d));
+                assert(s.dummy_tours@.contains_key(d));
+            }
+        }
+    }
+}
 /// C10 / C03 / C13 (2): the formations after the two formation updates (tf1 = the table between them, tf2 = the final one)
 pub proof fn lemma_or_formations_post(s: &Schedule, segment: Segment, p: VehicleIdx, rcv: VehicleIdx, tf1: Formations, u1: (PassengerCount, PassengerCount), tf2: Formations)
     requires s.or_pre(segment, p, rcv),
